@@ -667,6 +667,8 @@ class AbstractConstraintSet(AbstractConstraint):
             # a set extended by one more constraint to satisfy admits
             # a subset of values: it is derived from this one
             constraint._valueMap.add(self)
+            # ... and from everything this one derives from
+            constraint._valueMap.update(self._valueMap)
 
         return constraint
 
